@@ -129,6 +129,10 @@ def worker(rank, W, cases, store, outdir):
             else:
                 wrapped = DPDDP(model)
             start = torch.cat([p.detach().reshape(-1) for p in model.parameters()])
+            if case.get('prewrapped'):
+                # the user wraps the distributed module in a GradSampleModule before make_private (a path _prepare_model supports)
+                from opacus import GradSampleModule
+                wrapped = GradSampleModule(wrapped, loss_reduction=case['reduction'])
             m, o, crit = private(case, wrapped, True)
             r['opt_class'] = type(o).__name__
             r['ebs'] = float(o.expected_batch_size)
